@@ -318,6 +318,35 @@ def vb (ws : List String) : String :=
     | some b => if verifyBlock sym b then "accept" else "reject"
   | _, _, _, _, _, _, _ => "bad-op"
 
+/-- `fb`: Format(Miner)Block with the f-th crypto request failing, the block handed out judged by `verifyBlock` -/
+def fb (ws : List String) : String :=
+  match kv ws "n" |>.bind String.toNat?, kvInt ws "qc", kv ws "ft" |>.bind String.toNat?, kvInt ws "tb",
+        kv ws "ph" |>.bind String.toNat?, kv ws "k" |>.bind String.toNat?, kv ws "via", kv ws "f" |>.bind String.toNat? with
+  | some n, some qc, some ft, some tb, some ph, some k, some via, some f =>
+    if via != "miner" && via != "block" then "bad-op" else
+    let p : Base := ⟨n, qc, ft, tb, ph, k, ((kv ws "d").bind String.toNat?).getD 0⟩
+    -- FormatBlock: no target bits, certificate, failed transactions, height
+    let blk := via == "block"
+    match formatBlockF sym (baseTxids p) [0x41, UInt8.ofNat p.k] p.k 1700000000 3 7
+        (if p.ph == 1 then leafId 0x70 0 else []) (if blk then 0 else p.tb)
+        (if blk || p.qc < 0 then none else some (stdJustify p.qc.toNat))
+        (if blk then [] else (List.range p.ft).map fun i => ([0x66, UInt8.ofNat (48 + i)], [0x65, 0x72, 0x72, UInt8.ofNat (48 + i)]))
+        (if blk then 0 else 5) f with
+    | none => "refused"
+    | some b => if verifyBlock sym b then "verifies" else "unverifiable"
+  | _, _, _, _, _, _, _, _ => "bad-op"
+
+/-- `vf`: VerifyBlock with the f-th crypto request failing -/
+def vf (ws : List String) : String :=
+  match kv ws "n" |>.bind String.toNat?, kvInt ws "qc", kv ws "ft" |>.bind String.toNat?, kvInt ws "tb",
+        kv ws "ph" |>.bind String.toNat?, kv ws "k" |>.bind String.toNat?, kv ws "m", kv ws "f" |>.bind String.toNat? with
+  | some n, some qc, some ft, some tb, some ph, some k, some m, some f =>
+    let p : Base := ⟨n, qc, ft, tb, ph, k, ((kv ws "d").bind String.toNat?).getD 0⟩
+    match mutate p (formatBase p) m with
+    | none => "n/a"
+    | some b => if verifyBlockF sym b f then "accept" else "reject"
+  | _, _, _, _, _, _, _, _ => "bad-op"
+
 def stepC08 (line : String) : String :=
   match words line with
   | ["leaf", n] => match n.toNat? with
@@ -330,6 +359,8 @@ def stepC08 (line : String) : String :=
     | some b => hexStr (preimage b)
     | none => "bad-op"
   | "vb" :: ws => vb ws
+  | "fb" :: ws => fb ws
+  | "vf" :: ws => vf ws
   | _ => "bad-op"
 
 end XV.Drv.Enc
